@@ -6,6 +6,7 @@ package conc
 
 import (
 	"fmt"
+	"google.golang.org/protobuf/encoding/protowire"
 	"os"
 	"sort"
 	"strings"
@@ -53,8 +54,37 @@ func nodeBytes() []byte {
 	return b
 }
 
+// splitNodeBytes encodes the same tree with the lazy field of the root given in
+// two non-adjacent records (a legal encoding: the records merge), each carrying
+// part of the submessage, incl. a repeated-like merge of the nested lazy field.
+func splitNodeBytes() []byte {
+	inner := lazyopaque.Node_builder{Int32: proto.Int32(7), String: proto.String("deep")}.Build()
+	part1 := lazyopaque.Node_builder{Int32: proto.Int32(5)}.Build()
+	part2 := lazyopaque.Node_builder{Nested: inner, Bytes: []byte("mid")}.Build()
+	enc := func(m proto.Message) []byte {
+		b, err := proto.MarshalOptions{Deterministic: true}.Marshal(m)
+		if err != nil {
+			panic(err)
+		}
+		return b
+	}
+	var b []byte
+	b = protowire.AppendBytes(protowire.AppendTag(b, 99, protowire.BytesType), enc(part1))
+	b = protowire.AppendVarint(protowire.AppendTag(b, 1, protowire.VarintType), 1)
+	b = protowire.AppendBytes(protowire.AppendTag(b, 99, protowire.BytesType), enc(part2))
+	b = protowire.AppendVarint(protowire.AppendTag(b, 2, protowire.VarintType), uint64(0xfffffffffffffffe))
+	return b
+}
+
 func nodeFamily() family {
-	b := nodeBytes()
+	return nodeFamilyOf("opaque.lazy_tree.Node (3 levels of lazy nesting)", nodeBytes())
+}
+
+func splitNodeFamily() family {
+	return nodeFamilyOf("opaque.lazy_tree.Node, lazy field split over two non-adjacent records", splitNodeBytes())
+}
+
+func nodeFamilyOf(famName string, b []byte) family {
 	ref := &lazyopaque.Node{}
 	if err := (proto.UnmarshalOptions{NoLazyDecoding: true}).Unmarshal(b, ref); err != nil {
 		panic(err)
@@ -114,7 +144,7 @@ func nodeFamily() family {
 		{"CheckInitialized", func(m proto.Message) (string, any) { return fmt.Sprint(proto.CheckInitialized(m)), nil }},
 	}
 	return family{
-		name: "opaque.lazy_tree.Node (3 levels of lazy nesting)",
+		name: famName,
 		fresh: func() proto.Message {
 			m := &lazyopaque.Node{}
 			if err := proto.Unmarshal(b, m); err != nil {
@@ -138,6 +168,32 @@ func editionsFamily() family {
 	if err != nil {
 		panic(err)
 	}
+	return editionsFamilyOf("opaque.goproto.proto.testeditions.TestAllTypes.optional_lazy_nested_message", b)
+}
+
+// splitEditionsFamily: the lazy field arrives in two non-adjacent records whose
+// payloads hold repeated fields and unknown fields, so decoding the records
+// more than once into one submessage is observable.
+func splitEditionsFamily() family {
+	enc := func(m proto.Message) []byte {
+		b, err := proto.MarshalOptions{Deterministic: true}.Marshal(m)
+		if err != nil {
+			panic(err)
+		}
+		return b
+	}
+	p1 := teopaque.TestAllTypes_NestedMessage_builder{Corecursive: teopaque.TestAllTypes_builder{RepeatedInt32: []int32{1, 2}, MapStringString: map[string]string{"k": "v"}}.Build()}.Build()
+	p2 := teopaque.TestAllTypes_NestedMessage_builder{A: proto.Int32(9), Corecursive: teopaque.TestAllTypes_builder{RepeatedString: []string{"a"}, RepeatedInt32: []int32{3}}.Build()}.Build()
+	p2.ProtoReflect().SetUnknown(protowire.AppendVarint(protowire.AppendTag(nil, 1000, protowire.VarintType), 5))
+	var b []byte
+	b = protowire.AppendBytes(protowire.AppendTag(b, 24, protowire.BytesType), enc(p1))
+	b = protowire.AppendVarint(protowire.AppendTag(b, 1, protowire.VarintType), 3)
+	b = protowire.AppendBytes(protowire.AppendTag(b, 24, protowire.BytesType), enc(p2))
+	b = protowire.AppendString(protowire.AppendTag(b, 44, protowire.BytesType), "tail")
+	return editionsFamilyOf("opaque.goproto.proto.testeditions.TestAllTypes, lazy field split over two non-adjacent records with repeated, map and unknown content", b)
+}
+
+func editionsFamilyOf(famName string, b []byte) family {
 	ref := &teopaque.TestAllTypes{}
 	if err := (proto.UnmarshalOptions{NoLazyDecoding: true}).Unmarshal(b, ref); err != nil {
 		panic(err)
@@ -168,7 +224,7 @@ func editionsFamily() family {
 		}},
 	}
 	return family{
-		name: "opaque.goproto.proto.testeditions.TestAllTypes.optional_lazy_nested_message",
+		name: famName,
 		fresh: func() proto.Message {
 			m := &teopaque.TestAllTypes{}
 			if err := proto.Unmarshal(b, m); err != nil {
@@ -180,7 +236,9 @@ func editionsFamily() family {
 	}
 }
 
-func families() []family { return []family{nodeFamily(), editionsFamily()} }
+func families() []family {
+	return []family{nodeFamily(), splitNodeFamily(), editionsFamily(), splitEditionsFamily()}
+}
 
 // combos returns all multisets of size n over k ops.
 func combos(k, n int) [][]int {
@@ -204,7 +262,7 @@ type scenarioState struct {
 	inst []any
 }
 
-func lazyScenario(fam family, idx []int, seq []string) (sched.Scenario, *scenarioState) {
+func lazyScenario(fam family, idx []int, seq, seqExp []string) (sched.Scenario, *scenarioState) {
 	st := &scenarioState{}
 	sc := func() ([]func(), func() string) {
 		m := fam.fresh()
@@ -218,8 +276,8 @@ func lazyScenario(fam family, idx []int, seq []string) (sched.Scenario, *scenari
 		check := func() string {
 			var first any
 			for t, oi := range idx {
-				if st.res[t] != seq[oi] {
-					return fmt.Sprintf("reader %d (%s) got %q, sequentially %q", t, fam.ops[oi].name, st.res[t], seq[oi])
+				if st.res[t] != seq[oi] && st.res[t] != seqExp[oi] {
+					return fmt.Sprintf("reader %d (%s) got %q, sequentially %q (fresh) or %q (after expansion)", t, fam.ops[oi].name, st.res[t], seq[oi], seqExp[oi])
 				}
 				if st.inst[t] != nil {
 					if first == nil {
@@ -231,8 +289,8 @@ func lazyScenario(fam family, idx []int, seq []string) (sched.Scenario, *scenari
 			}
 			// the message is unchanged for later readers
 			for oi, o := range fam.ops {
-				if r, in := o.f(m); r != seq[oi] {
-					return fmt.Sprintf("after the concurrent readers, %s returns %q, sequentially %q", o.name, r, seq[oi])
+				if r, in := o.f(m); r != seq[oi] && r != seqExp[oi] {
+					return fmt.Sprintf("after the concurrent readers, %s returns %q, sequentially %q (fresh) or %q (after expansion)", o.name, r, seq[oi], seqExp[oi])
 				} else if in != nil && first != nil && in != first {
 					return "after the concurrent readers, a later reader sees another submessage instance"
 				}
@@ -254,7 +312,7 @@ func needShim(id string) {
 func runC18(c *core.Ctx) {
 	needShim("C18")
 	bound := core.Pick(c, 2, 3)
-	c.Rule = fmt.Sprintf("E-SCHED: the library is built with every sync / sync/atomic operation of internal/impl, internal/protolazy, internal/filedesc, reflect/protoregistry, proto, ... redirected to a cooperative scheduler (build overlay; /repo untouched). For each lazily decoded message family (3-level lazy tree Node; TestAllTypes with a lazy nested message) and EVERY multiset of 2 readers and EVERY multiset of 3 readers over the reader alphabet (generated getters incl. nested, Has, reflection Get/Has/Range, Size, Marshal, deterministic Marshal, Equal, Clone, protojson, prototext, CheckInitialized) on one fresh never-accessed message, EVERY schedule with at most %d preemptions (one less for 3 readers) at synchronisation operations is executed (iterative context bounding, depth-first replay from a fresh message). Oracle per execution: no panic, no deadlock, every reader's result equals its sequential result, all readers (and every later reader) obtain the same instance of the lazily decoded submessage, and afterwards every operation still returns its sequential result. Unsynchronised accesses are outside what a cooperative scheduler can see: the same reader bodies run free under the Go race detector in a separate child (-race build, no overlay; that part is sampling and only complements the exploration)", bound)
+	c.Rule = fmt.Sprintf("E-SCHED: the library is built with every sync / sync/atomic operation of internal/impl, internal/protolazy, internal/filedesc, reflect/protoregistry, proto, ... redirected to a cooperative scheduler (build overlay; /repo untouched). For each lazily decoded message family (3-level lazy tree Node in canonical encoding and with the lazy field split over two non-adjacent records; TestAllTypes with a lazy nested message, canonical and split with repeated / map / unknown content) and EVERY multiset of 2 readers and EVERY multiset of 3 readers over the reader alphabet (generated getters incl. nested, Has, reflection Get/Has/Range, Size, Marshal, deterministic Marshal, Equal, Clone, protojson, prototext, CheckInitialized) on one fresh never-accessed message, EVERY schedule with at most %d preemptions (one less for 3 readers) at synchronisation operations is executed (iterative context bounding, depth-first replay from a fresh message). Oracle per execution: no panic, no deadlock, every reader's result equals its sequential result (on a fresh message or, for Size/Marshal of non-canonical lazy bytes, on an already expanded one), all readers (and every later reader) obtain the same instance of the lazily decoded submessage, and afterwards every operation still returns its sequential result. Unsynchronised accesses are outside what a cooperative scheduler can see: the same reader bodies run free under the Go race detector in a separate child (-race build, no overlay; that part is sampling and only complements the exploration)", bound)
 	c.Exhaustive = true
 	var race *core.Child
 	if !core.IsChild() {
@@ -269,6 +327,19 @@ func runC18(c *core.Ctx) {
 		seq := make([]string, len(fam.ops))
 		for i, o := range fam.ops {
 			seq[i], _ = o.f(fam.fresh())
+		}
+		// Size and Marshal of a lazily kept, non-canonically encoded submessage may legitimately
+		// change once it is expanded (documented); the second reference is taken on a message on
+		// which every operation has already run once
+		seqExp := make([]string, len(fam.ops))
+		{
+			m := fam.fresh()
+			for _, o := range fam.ops {
+				o.f(m)
+			}
+			for i, o := range fam.ops {
+				seqExp[i], _ = o.f(m)
+			}
 		}
 		for _, n := range []int{2, 3} {
 			cs := combos(len(fam.ops), n)
@@ -286,7 +357,7 @@ func runC18(c *core.Ctx) {
 				if n == 3 {
 					b = bound - 1
 				}
-				sc, _ := lazyScenario(fam, idx, seq)
+				sc, _ := lazyScenario(fam, idx, seq, seqExp)
 				var names []string
 				for _, i := range idx {
 					names = append(names, fam.ops[i].name)
@@ -341,6 +412,16 @@ func runC18Race(c *core.Ctx) {
 		for i, o := range fam.ops {
 			seq[i], _ = o.f(fam.fresh())
 		}
+		seqExp := make([]string, len(fam.ops))
+		{
+			m := fam.fresh()
+			for _, o := range fam.ops {
+				o.f(m)
+			}
+			for i, o := range fam.ops {
+				seqExp[i], _ = o.f(m)
+			}
+		}
 		for r := 0; r < rounds; r++ {
 			m := fam.fresh()
 			var wg sync.WaitGroup
@@ -359,8 +440,8 @@ func runC18Race(c *core.Ctx) {
 			wg.Wait()
 			c.Eval(1)
 			for i := range res {
-				if res[i] != seq[i] {
-					c.Violation(fmt.Sprintf("free-running readers: %s got %q, sequentially %q (family %s)", fam.ops[i].name, res[i], seq[i], fam.name), nil)
+				if res[i] != seq[i] && res[i] != seqExp[i] {
+					c.Violation(fmt.Sprintf("free-running readers: %s got %q, sequentially %q or %q (family %s)", fam.ops[i].name, res[i], seq[i], seqExp[i], fam.name), nil)
 				}
 			}
 		}
